@@ -171,7 +171,7 @@ def build_fixtures(scratch, rng):
     fx.append(Fixture("w/cplx.vdif", lambda: pb.readers.BasebandReader(vc, lower_sideband=True), [vc], {}, "bb", {"lsb": True}))
 
     def w_dada(tmpl, nfiles, spf, npol, nchan, cplx, bw, sr):
-        names = [os.path.join(scratch, tmpl.format(i)) for i in range(nfiles)]
+        names = [os.path.join(scratch, tmpl.format(i + 9)) for i in range(nfiles)]
         data = rdata((nfiles * spf, npol, nchan), cplx)
         hdr = dada.DADAHeader.fromvalues(time=t0, offset=0 * u.s, sample_rate=sr, samples_per_frame=spf, npol=npol, nchan=nchan,
                                          complex_data=cplx, bps=8, bandwidth=abs(bw) * u.MHz)
@@ -181,17 +181,18 @@ def build_fixtures(scratch, rng):
             fw.write(data)
         return names
 
-    dc = w_dada("c{}.dada", 3, 32, 2, 1, True, 16.0, 16 * u.MHz)
+    dc = w_dada("c.{}.dada", 3, 32, 2, 1, True, 16.0, 16 * u.MHz)
     fx.append(Fixture("w/multi.dada", lambda: pb.readers.BasebandReader(dc, squeeze=False, format="dada"), dc,
                       {"format": "dada", "squeeze": False}, "bb", {}))
     for tag, bw in (("lsb", -8.0), ("usb", 8.0)):
-        ds = w_dada("st" + tag + "{}.dada", 2, 16, 4, 8, False, bw, 1 * u.kHz)
+        ds = w_dada("st" + tag + ".{}.dada", 2, 16, 4, 8, False, bw, 1 * u.kHz)
         fx.append(Fixture(f"w/stokes_{tag}.dada", (lambda n_: (lambda: pb.readers.DADAStokesReader(n_)))(ds), ds,
                           {"format": "dada", "squeeze": False}, "stokes",
                           {"intensity": True, "flip": bw < 0, "cls": pb.FullStokesSignal, "fc": 1400e6, "bw": 1e6, "align": "top" if bw < 0 else "bottom"}))
 
     def w_guppi(tmpl, nfiles, spf, nchan, bw, poln):
-        names = [os.path.join(scratch, tmpl.format(i)) for i in range(nfiles)]
+        # file numbers 9, 10, 11: time order differs from lexicographic order
+        names = [os.path.join(scratch, tmpl.format(i + 9)) for i in range(nfiles)]
         data = rdata((nfiles * spf, 2, nchan), True).astype(np.complex64)
         hdr = guppi.GUPPIHeader.fromvalues(time=t0, offset=0 * u.s, sample_rate=abs(bw) / nchan * u.MHz, samples_per_frame=spf, npol=2,
                                            nchan=nchan, bps=8, complex_data=True, overlap=0, sideband=(bw > 0), pktsize=256)
@@ -202,7 +203,7 @@ def build_fixtures(scratch, rng):
         return names
 
     for tag, bw, poln in (("lsb", -12.5, "CIRC"), ("usb", 12.5, "LIN")):
-        gn = w_guppi("g" + tag + "{}.raw", 3, 64, 4, bw, poln)
+        gn = w_guppi("g" + tag + ".{}.raw", 3, 64, 4, bw, poln)
         fx.append(Fixture(f"w/guppi_{tag}.raw", (lambda n_: (lambda: pb.readers.GUPPIRawReader(n_)))(gn), gn,
                           {"format": "guppi", "squeeze": False}, "guppi",
                           {"lsb": bw < 0, "cls": pb.DualPolarizationSignal, "fc": 344.1875e6, "pol": "circular" if poln == "CIRC" else "linear",
@@ -308,7 +309,14 @@ def wl_reads(ctx, idx, rng):
     n = int(gen.pick(rng, [0, min(room, 1), min(room, 2), min(room, 7), min(room, max(1, fx.frame // (2 if fx.real_baseband else 1)) + 1),
                            room, int(rng.integers(0, room + 1))]))
     path = "dask" if idx % 4 == 3 else "eager"
-    desc = {"fixture": fx.name, "offset": o, "n": n, "path": path, "len": L}
+    # offsets / counts as narrow NumPy integer scalars (anything operator.index accepts denotes the same position)
+    o_arg, n_arg, itype = o, n, "int"
+    if rng.random() < 0.4:
+        for t in rng.permutation([np.uint8, np.int8, np.int16, np.uint16, np.int32, np.int64]):
+            if o <= np.iinfo(t).max and n <= np.iinfo(t).max:
+                o_arg, n_arg, itype = t(o), t(n), np.dtype(t).name
+                break
+    desc = {"fixture": fx.name, "offset": o, "n": n, "path": path, "len": L, "int_type": itype}
     ctx.describe_case(desc)
     ctx.sample(desc)
     before_state = {k: snapshot.snap(v) for k, v in vars(r).items()}
@@ -316,10 +324,10 @@ def wl_reads(ctx, idx, rng):
     _AUDIT["events"].clear()
     _AUDIT["on"] = True
     if path == "eager":
-        sig, exc = ctx.call("read_model", r.read, o, n, where=f"{fx.name}.read({o},{n})")
+        sig, exc = ctx.call("read_model", r.read, o_arg, n_arg, where=f"{fx.name}.read({itype}({o}),{n})", features={"int_type": itype})
     else:
         ra0 = ctx.counters["read_array_calls"]
-        sig, exc = ctx.call("read_model", r.dask_read, o, n, where=f"{fx.name}.dask_read({o},{n})",
+        sig, exc = ctx.call("read_model", r.dask_read, o_arg, n_arg, where=f"{fx.name}.dask_read({itype}({o}),{n})",
                             features={"path": "dask", "empty_read": n == 0})
         if exc is None and ctx.counters["read_array_calls"] != ra0:
             ctx.violation("read_model", f"{fx.name}: dask_read touched the file while building the graph", None, {"what": "eager_dask"})
@@ -347,7 +355,7 @@ def wl_reads(ctx, idx, rng):
     fd1 = nfds()
     if fd1 > fd0:
         ctx.violation("stateless", f"{fx.name}: open file descriptors grew from {fd0} to {fd1} after a read", None, {"what": "fd_leak"})
-    ctx.bucket(fx.name, "o" + str(offs.index(o)), "n" + str(min(n, 9)), path)
+    ctx.bucket(fx.name, "o" + str(offs.index(o)), "n" + str(min(n, 9)), path, itype)
     # adjacent reads concatenate to the spanning read (formats without Hilbert conversion)
     if exc is None and not fx.real_baseband and n >= 2 and path == "eager":
         c = int(rng.integers(1, n))
